@@ -931,6 +931,15 @@ class FnAnalysis(Analysis):
                 if x is not None:
                     self.val(x, st)
             return self.slice_val(base, e.slice, st, self.key_of(e.value))
+        if isinstance(e.slice, (ast.Name, ast.Attribute)) and not (isinstance(e.slice, ast.Name) and e.slice.id in getattr(self, "_local_names", ())):
+            try:
+                fs = self.prog.fold(e.slice, self.m, self.fn.cls)
+            except Exception:
+                fs = None
+            if isinstance(fs, slice):
+                # x[NAMED_SLICE]: a slice never raises IndexError
+                mk = lambda v: None if v is None else ast.Constant(value=v)      # noqa: E731
+                return self.slice_val(base, ast.Slice(lower=mk(fs.start), upper=mk(fs.stop), step=mk(fs.step)), st, self.key_of(e.value))
         idx = self.val(e.slice, st)
         k = self.cint(e.slice)
         if base.kind in ("bytes", "list", "str", "any", "strlist") or base.taint:
